@@ -62,7 +62,8 @@ def census(ctx):
     from pyvc import frames
     out = []
     unlisted = []
-    for rel, shapes in (("moclo/moclo/core/_assembly.py", FRAME_ASSEMBLY), ("moclo/moclo/core/_utils.py", FRAME_UTILS)):
+    # one frame for the two files: logic may move between the assembly manager and its helper module
+    for rel, shapes in (("moclo/moclo/core/_assembly.py", FRAME_ASSEMBLY | FRAME_UTILS), ("moclo/moclo/core/_utils.py", FRAME_ASSEMBLY | FRAME_UTILS)):
         mi = ctx.repo.modules.get(rel)
         if mi is None:
             continue
